@@ -9,11 +9,18 @@ def main(tier):
         'every 4- and 8-per-line boundary, table generators 1..13 times with/without enthalpy, None in every optional leaf, both flavours, mesh in-file / MESH / MESHA+MESHB, extra precision '
         'off / on / echoed; every file under tests/data; decks written by an independent Fortran-style writer in six styles; contracts: model equality to the digits of each field, section order, '
         'write-read-write up to trailing blanks, then byte stability; distinct = distinct case descriptors',
-        trust=('record tape model of the file objects (write_values / read_values / write_value_line / read_value_line / readline / parse_string exchange whole records; the text layer is C02)',
-               'pyvc record model of t2data / t2generator objects; list lengths 0..17 with symbolic contents', 'z3'),
-        assume=('the driver layer (read()/write() keyword loops, side files, binary mesh records, hand-over of the line after PARAM) is outside the executor subset: bounded',),
-        explanation='clause -> evidence: every chunked section writer (time steps, output times, SELEC, generator time/rate/enthalpy tables, RZ2D radii and layers) emits ceil(n/K) records of exactly K values that '
-                    'tile the list with blank padding, and the matching reader rebuilds exactly the list (PROVED on the real writer/reader pairs for all lengths 0..17, symbolic contents); trim_trailing_nones '
-                    '(PROVED, exhaustive masks up to 8); insert_section keeps the canonical order (PROVED, exhaustive windows). Whole-object round trips, section order, byte stability, side files, real files, '
-                    'independent decks: BOUNDED. 8 known findings (exotic configurations, see known_findings.json).',
+        trust=('record tape model of the file objects: write / write_values / write_value_line append records, read_values / read_value_line / readline / parse_string consume them; a record read back '
+               'returns, field by field, the value written in the same columns (blank -> None, string fields as their padded text: the contract C02 proves for the text layer), keyword / title / blank '
+               'lines go through the real parse_string; t2data_parser / t2_extra_precision_data_parser / os.path.exists are replaced by a name -> tape file system',
+               'pyvc heap model of t2data / t2grid / rocktype / t2block / t2connection / t2generator objects built by the real constructors; concrete structure, symbolic numeric content', 'z3'),
+        assume=('whole-file obligations quantify over the numeric content of a fixed family of structures (7 base configurations x flavour x mesh in file / MESH file x extra precision off / all / all echoed / '
+                'ROCKS+GENER, and every section kind that may follow PARAM with one and two lines of default initial conditions); other structures, the MESHA/MESHB binary pair and the MOP digit strings '
+                '(concrete digits here) are bounded',),
+        explanation='clause -> evidence: (1) the real t2data.write() and t2data.read() drivers - keyword dispatch, the line handed back by read_parameters, the section list, END keyword, MESH side file, '
+                    'extra-precision side file with its skip functions and echo flag - run by the executor over record tapes: the re-read object has the same sections in the same order and every section\'s '
+                    'content equal to what was written (symbolic contents, validity under the path condition), a second write reproduces the first files record for record, and a further fresh object reads '
+                    'the same content (PROVED per configuration listed under assume). (2) every chunked section writer (time steps, output times, SELEC, generator time/rate/enthalpy tables, RZ2D radii and '
+                    'layers) emits ceil(n/K) records of exactly K values that tile the list with blank padding, and the matching reader rebuilds exactly the list (PROVED on the real writer/reader pairs for '
+                    'all lengths 0..17, symbolic contents); trim_trailing_nones (PROVED, exhaustive masks up to 8); insert_section keeps the canonical order (PROVED, exhaustive windows). Random subsets and '
+                    'orders, byte stability of the text, binary mesh pair, real files, independent decks: BOUNDED. 8 known findings (exotic configurations, see known_findings.json).',
         bounded_timeout=(900, 3400))
